@@ -189,11 +189,31 @@ def run(ctx: Ctx) -> None:
     src = stmts_matching(rv, "entries = self._wal.recover()")
     ok = len(src) == 1 and any(path_of(lp.iter) == "entries" and any(path_of(c.func) == "self._memtable.put_sync" and [unparse(a) for a in c.args] == [f"{path_of(lp.target)}.key", f"{path_of(lp.target)}.value"] for c in calls_in(lp)) for lp in loops)
     ctx.ob("C15-4", "G2", rv, src[0][0] if src else None, ok, "recovery replays the surviving log entries, in the order recover() returns them, through the memtable's ordinary put (overwrite-only, hence idempotent)")
-    for r, k in (("C15-1", 5), ("C15-2", 4), ("C15-3", 8), ("C15-4", 2)):
+    # who may truncate: the checkpoint bound assumes every logged entry up to it sits in an SSTable or in the memtable being flushed;
+    # during crash()/recovery the memtable holds only a prefix of the log, so neither may reach a truncation (directly or through helpers)
+    lsm = prog.cls(LSM, "LSMTree")
+    direct = {m.name for m in lsm.methods.values() if any(path_of(c.func) == "self._wal.truncate" for c in calls_in(m.node))}
+    reach = {m.name: {c.func.attr for c in calls_in(m.node) if isinstance(c.func, ast.Attribute) and path_of(c.func.value) == "self" and c.func.attr in lsm.methods} for m in lsm.methods.values()}
+    trunc = set(direct)
+    changed = True
+    while changed:
+        changed = False
+        for m, cs in reach.items():
+            if m not in trunc and cs & trunc:
+                trunc.add(m)
+                changed = True
+    for q in ("recover_from_crash", "crash"):
+        fn = prog.func(LSM, f"LSMTree.{q}")
+        via = sorted(reach[q] & trunc)
+        ctx.ob("C15-4", "G7", fn, "never truncates the log", q not in trunc, f"LSMTree.{q} cannot reach a log truncation" + ("" if q not in trunc else f" — it does, through {via or 'a direct call'}"))
+    ctx.ob("C15-4", "G7", rv, "replay leaves the log alone", not any(isinstance(c.func, ast.Attribute) and path_of(c.func.value) == "self._wal" and c.func.attr not in ("recover",) for c in calls_in(rv.node)),
+           "recovery only reads the log (entries stay until a later flush checkpoints them)")
+    for r, k in (("C15-1", 5), ("C15-2", 4), ("C15-3", 8), ("C15-4", 5)):
         ctx.floor(r, k)
 
 
 MUTANTS = [
+    ("recover-flushes-mid-replay", LSM, "                self._memtable.put_sync(entry.key, entry.value)\n            wal_recovered", "                if self._memtable.put_sync(entry.key, entry.value):\n                    self._flush_memtable_sync()\n            wal_recovered", "C15-4"),
     ("durable-before-sync", WAL, "            yield self._sync_latency\n            self._synced_up_to_sequence = seq\n", "            self._synced_up_to_sequence = seq\n            yield self._sync_latency\n", "C15-1"),
     ("durable-without-policy", WAL, "        if self._sync_policy.should_sync(self._writes_since_sync, time_since_sync):\n            yield self._sync_latency\n            self._synced_up_to_sequence = seq", "        if True:\n            yield self._sync_latency\n            self._synced_up_to_sequence = seq", "C15-1"),
     ("sequence-not-advanced", WAL, "        seq = self._next_sequence\n        self._next_sequence += 1\n\n        now_s = self.now.to_seconds()\n        entry = WALEntry(", "        seq = self._next_sequence\n\n        now_s = self.now.to_seconds()\n        entry = WALEntry(", "C15-1"),
